@@ -40,8 +40,16 @@ def cases(tier, seed):
     for i in range(n):
         r = common.case_rng(seed, PID, i)
         nt = r.choice([2, 2, 3, 4])
-        trees = {f"T{k}": gen.gen_tree(r, rootname=f"R{k}", maxdepth=r.choice([1, 2, 3]), md=0.5, avoid_prefix=["R", "root", "array_", "dictionary_"])
+        trees = {f"T{k}": gen.gen_tree(r, rootname=f"R{k}", maxdepth=r.choice([1, 2, 3]), md=0.5, avoid_prefix=["root_savedlist", "array_", "dictionary_"])
                  for k in range(nt)}
+        # a node may be called like the root of ANOTHER tree of the file (names are only unique among siblings)
+        for k in range(nt):
+            t = trees[f"T{k}"]
+            if t["kids"] and r.random() < 0.35:
+                other = f"R{r.choice([j for j in range(nt) if j != k])}"
+                tgt = r.choice(t["kids"])
+                if other not in [x["name"] for x in t["kids"]]:
+                    tgt["name"] = other
         unrooted = {}
         for k in range(r.choice([0, 1, 2])):
             cls = r.choice(gen.CLASSES)
